@@ -403,7 +403,8 @@ fn check_row_addrs(row_addrs: &[u64]) -> RowAddressStats {
 
     for addr in row_addrs.iter().skip(1) {
         sorted &= *addr > last_offset;
-        contiguous &= *addr == last_offset + 1;
+        // last_offset may be the tombstone address (u64::MAX) of an out-of-range offset
+        contiguous &= Some(*addr) == last_offset.checked_add(1);
         // Contiguous also requires the fragment ids are all the same
         contiguous &= (*addr >> 32) == first_fragment_id;
         last_offset = *addr;
